@@ -101,7 +101,7 @@ GEN_OPA_RX = re.compile(r"^std::ops::(Add|Sub|Mul|Div)Assign::(add|sub|mul|div)_
 FIELD_OPA_RX = re.compile(r"<" + FIELD_TY + r" as std::ops::(Add|Sub|Mul|Div)Assign(<.*>)?>::(add|sub|mul|div)_assign$")
 
 
-SUBST_NAMED_RX = re.compile(r"::storage::read_message$|^prost::Message::decode$|^std::mem::size_of$")
+SUBST_NAMED_RX = re.compile(r"::storage::read_message$|^prost::Message::decode$|^std::mem::size_of$|<impl \[T\]>::split_first_chunk$")
 
 
 def callee_name(t):
@@ -1007,7 +1007,21 @@ def mk_unwrap(r):
         return r[4][0]
     if isinstance(r, tuple) and r and r[0] == "map_err":
         return mk_unwrap(r[1])
+    n = chunk_width(r)
+    if n is not None:
+        # <[T]>::split_first_chunk::<N>(s) = Some((&s[0..N], &s[N..])) when N <= len(s) (the length fact is attached to the `Some` test
+        # by the obligation checker)
+        s_ = r[2][0]
+        return ("tuple", (mk_slice(s_, mk_const("usize", 0), mk_const("usize", n)), mk_slice(s_, mk_const("usize", n), None)))
     return ("unwrap", r)
+
+
+def chunk_width(r):
+    """N for a term `<[T]>::split_first_chunk::<N>(s)`, else None"""
+    if isinstance(r, tuple) and r and r[0] == "call" and isinstance(r[1], str) and "split_first_chunk@" in r[1] and len(r[2]) == 1:
+        m = re.search(r"(\d+)(_usize)?\]$", r[1])
+        return int(m.group(1)) if m else None
+    return None
 
 
 def mk_eq(a, b):
